@@ -513,6 +513,8 @@ fn number<'a>() -> impl Parser<'a, ParserInput<'a>, Literal, ParserError<'a>> {
                 Literal::Integer(0) // Fallback
             }
         })
+        // a number too large for a float would silently become infinity
+        .filter(|lit| !matches!(lit, Literal::Float(f) if !f.is_finite()))
 }
 
 fn parse_integer<'a>() -> impl Parser<'a, ParserInput<'a>, &'a str, ParserError<'a>> {
